@@ -146,7 +146,32 @@ func (h *compHooks) onReturn(g *goProg, a *AbsState, r *ssa.Return) {
 	}
 	L := g.lenSym["dst"]
 	n := r.Results[0]
-	errNil := isNilConst(r.Results[1])
+	errRes := r.Results[1]
+	// named results (a function with a deferred recover): the return statement stores into the result cells in the
+	// returning block and the Return loads them: judge the values stored
+	storedInBlock := func(v ssa.Value) ssa.Value {
+		ld, ok := v.(*ssa.UnOp)
+		if !ok || ld.Op != token.MUL {
+			return v
+		}
+		al, isAl := ld.X.(*ssa.Alloc)
+		if !isAl {
+			return v
+		}
+		var last ssa.Value
+		for _, in := range r.Block().Instrs {
+			if st, isS := in.(*ssa.Store); isS && st.Addr == ssa.Value(al) {
+				last = st.Val
+			}
+		}
+		if last != nil {
+			return last
+		}
+		return v
+	}
+	errRes = storedInBlock(errRes)
+	nConst := storedInBlock(n)
+	errNil := isNilConst(errRes)
 	var nv Lin
 	if u, ok := n.(*ssa.UnOp); ok && u.Op == token.MUL {
 		// named result cell
@@ -157,7 +182,7 @@ func (h *compHooks) onReturn(g *goProg, a *AbsState, r *ssa.Return) {
 		nv = g.val(a, n)
 	}
 	key := "return"
-	if k, isK := n.(*ssa.Const); isK && k.Value != nil && k.Value.Kind() == constant.Int {
+	if k, isK := nConst.(*ssa.Const); isK && k.Value != nil && k.Value.Kind() == constant.Int {
 		if k.Int64() == 0 && errNil {
 			// (0, nil): only on paths that passed the true edge of `len(dst) < CompressBlockBound(len(src))`
 			ok := false
@@ -790,9 +815,127 @@ func portableDecoderRulesImpl(c *Check, prefix string) {
 	case prefix == "R04":
 		emitObls(c, coll, "go|", map[string]string{"offset": "R04.1", "consumed": "R04.2", "nonempty": "R04.2", "overlap": "R04.7", "errexit": "R04.6"})
 		c.RuleDoc["R04.7"] = "portable decoder: same-buffer copies whose count is not the cursor advance do not overlap their source"
+		c.RuleDoc["R04.9"] = "portable decoder: a length extension ends only with a byte below 255 (or an error): the loops that add source bytes to a length have no other exit"
+		ruleExtensionLoops(c, p, fn, "R04.9")
 	default:
 		emitObls(c, coll, "go|", map[string]string{"result": prefix, "offset": prefix, "consumed": prefix, "nonempty": prefix, "overlap": prefix, "errexit": prefix})
+		if prefix != "R03" {
+			ruleExtensionLoops(c, p, fn, prefix)
+		}
 	}
+}
+
+// ruleExtensionLoops: in the portable decoder, a loop that reads source bytes and adds them to a length (the 255-run
+// of an extended literal or match length) is left only through the test of the byte just read against 255, or
+// through an error return. An exit on any other condition (end of input, a count) accepts a length whose encoding
+// was cut short, which the assembly decoders reject.
+func ruleExtensionLoops(c *Check, p *Program, fn *ssa.Function, rule string) {
+	n := 0
+	for _, h := range fn.Blocks {
+		// natural loop of every back edge into h
+		body := map[*ssa.BasicBlock]bool{}
+		for _, pr := range h.Preds {
+			if !(pr.Index >= h.Index && h.Dominates(pr)) {
+				continue
+			}
+			body[h] = true
+			stack := []*ssa.BasicBlock{pr}
+			for len(stack) > 0 {
+				x := stack[len(stack)-1]
+				stack = stack[:len(stack)-1]
+				if body[x] {
+					continue
+				}
+				body[x] = true
+				stack = append(stack, x.Preds...)
+			}
+		}
+		if len(body) == 0 || len(body) > 6 {
+			continue // not a loop head, or the main loop of the decoder
+		}
+		// the byte read in the loop and added to a length
+		var xs []ssa.Value
+		for b := range body {
+			for _, in := range b.Instrs {
+				ld, ok := in.(*ssa.UnOp)
+				if !ok || ld.Op != token.MUL {
+					continue
+				}
+				if _, isIA := ld.X.(*ssa.IndexAddr); !isIA {
+					continue
+				}
+				if bt, isB := ld.Type().Underlying().(*types.Basic); !isB || bt.Kind() != types.Uint8 {
+					continue
+				}
+				xs = append(xs, ld)
+			}
+		}
+		if len(xs) == 0 {
+			continue
+		}
+		isX := func(v ssa.Value) bool {
+			for _, x := range xs {
+				if v == x || derivesFromValue(v, x) {
+					return true
+				}
+			}
+			return false
+		}
+		adds := false
+		for b := range body {
+			for _, in := range b.Instrs {
+				if bo, ok := in.(*ssa.BinOp); ok && bo.Op == token.ADD && (isX(bo.X) || isX(bo.Y)) {
+					adds = true
+				}
+			}
+		}
+		if !adds {
+			continue
+		}
+		n++
+		c.Sites++
+		bad := ""
+		for b := range body {
+			for k, su := range b.Succs {
+				if body[su] {
+					continue
+				}
+				// an exit edge: an error return, or the terminator test
+				if len(su.Instrs) > 0 {
+					if r, isRet := su.Instrs[len(su.Instrs)-1].(*ssa.Return); isRet && len(su.Instrs) <= 5 && len(r.Results) == 1 {
+						res := r.Results[0]
+						// named result: the value the return statement stores in this block
+						if ld, isLd := res.(*ssa.UnOp); isLd && ld.Op == token.MUL {
+							for _, j := range su.Instrs {
+								if st, isS := j.(*ssa.Store); isS && st.Addr == ld.X {
+									res = st.Val
+								}
+							}
+						}
+						if kk, isK := res.(*ssa.Const); isK && kk.Value != nil && kk.Int64() < 0 {
+							continue
+						}
+					}
+				}
+				ok := false
+				if ifi, isIf := b.Instrs[len(b.Instrs)-1].(*ssa.If); isIf {
+					if bo, isBO := ifi.Cond.(*ssa.BinOp); isBO {
+						for _, pr := range [][2]ssa.Value{{bo.X, bo.Y}, {bo.Y, bo.X}} {
+							if kv, isK := constUint(pr[1]); isK && (kv == 255 || kv == 254) && isX(pr[0]) {
+								ok = true
+							}
+						}
+					}
+					_ = k
+				}
+				if !ok {
+					bad = p.InstrPos(b.Instrs[len(b.Instrs)-1])
+				}
+			}
+		}
+		c.Cond(bad == "", rule, fmt.Sprintf("go|decodeBlock#length-extension-loop#%d", n), p.InstrPos(xs[0].(ssa.Instruction)), "a length extension is left only when the byte just read is below 255 (or with an error)", "every exit edge tests the byte against 255 or returns an error", "the loop can also be left at "+bad+" on another condition: a length whose extension bytes were cut short is accepted with the partial value")
+	}
+	c.Cond(n >= 2, rule, "go|decodeBlock#length-extension-loops", p.Pos(fn.Pos()), "the two length-extension loops of the portable decoder were found", fmt.Sprintf("%d loops", n), fmt.Sprintf("only %d loops that add source bytes to a length were found (expected 2)", n))
 }
 
 func isLenOf(v ssa.Value, of ssa.Value) bool {
